@@ -184,6 +184,7 @@ type c19Case struct {
 	Exclude     []mentry `json:"exclude,omitempty"`
 	ExcludeExpr string   `json:"exclude_expr,omitempty"`
 	Indent      int      `json:"indent"`
+	ExprForm    int      `json:"expr_form,omitempty"` // how whole-value expressions are written: 0 plain, 1 block scalar keeping its final line break, 2 double quoted with a trailing \n, 3 spaces around the placeholder
 	KeyCase     int      `json:"key_case,omitempty"` // > 0: row / include / exclude keys are written in varying letter case (keys are case-insensitive)
 }
 
@@ -241,6 +242,17 @@ func (c *c19Case) job() (*ye.Node, func(exp *c19Expect)) {
 	}
 	strat := ye.M()
 	matrix := ye.M()
+	exprNode := func(e string) *ye.Node {
+		switch c.ExprForm {
+		case 1:
+			return ye.Q(e+"\n", ye.Literal)
+		case 2:
+			return ye.Q(e+"\n", ye.Double)
+		case 3:
+			return ye.Q("  "+e+" ", ye.Single)
+		}
+		return ye.S(e)
+	}
 	type rowNodes struct {
 		row   mrow
 		nodes []*ye.Node
@@ -248,7 +260,7 @@ func (c *c19Case) job() (*ye.Node, func(exp *c19Expect)) {
 	var rns []rowNodes
 	for _, r := range c.Rows {
 		if r.Expr != "" {
-			matrix.Set(spellKey(r.Key), ye.S(r.Expr))
+			matrix.Set(spellKey(r.Key), exprNode(r.Expr))
 			rns = append(rns, rowNodes{row: r})
 			continue
 		}
@@ -267,7 +279,7 @@ func (c *c19Case) job() (*ye.Node, func(exp *c19Expect)) {
 		var keyNodes, valNodes [][]*ye.Node
 		for _, e := range es {
 			if e.Expr != "" {
-				l.Vals = append(l.Vals, ye.S(e.Expr))
+				l.Vals = append(l.Vals, exprNode(e.Expr))
 				keyNodes = append(keyNodes, nil)
 				valNodes = append(valNodes, nil)
 				continue
@@ -287,13 +299,13 @@ func (c *c19Case) job() (*ye.Node, func(exp *c19Expect)) {
 	}
 	var exKeys, exVals [][]*ye.Node
 	if c.IncludeExpr != "" {
-		matrix.Set("include", ye.S(c.IncludeExpr))
+		matrix.Set("include", exprNode(c.IncludeExpr))
 	} else if len(c.Include) > 0 {
 		l, _, _ := entryNodes(c.Include)
 		matrix.Set("include", l)
 	}
 	if c.ExcludeExpr != "" {
-		matrix.Set("exclude", ye.S(c.ExcludeExpr))
+		matrix.Set("exclude", exprNode(c.ExcludeExpr))
 	} else if len(c.Exclude) > 0 {
 		var l *ye.Node
 		l, exKeys, exVals = entryNodes(c.Exclude)
@@ -659,6 +671,9 @@ func c19gen(t *rapid.T) *c19Case {
 	c := &c19Case{Indent: rapid.IntRange(1, 4).Draw(t, "indent")}
 	if rapid.IntRange(0, 2).Draw(t, "keycase") == 0 {
 		c.KeyCase = rapid.IntRange(1, 4).Draw(t, "keycasesalt")
+	}
+	if rapid.IntRange(0, 2).Draw(t, "exprformq") == 0 {
+		c.ExprForm = rapid.IntRange(1, 3).Draw(t, "exprform")
 	}
 	nrows := rapid.IntRange(1, 3).Draw(t, "nrows")
 	for i := 0; i < nrows; i++ {
